@@ -261,6 +261,18 @@ def groups_for(name, rng, n, exh):
                                           ("zero", f32(np.zeros(d)))]))
                 ps.append(("zero", np.zeros(d)))
                 out.append((st, f32(x), [(k, f32(v)) for k, v in ps]))
+    if name in ("euclidean", "l2"):
+        # rows far from the origin that differ a little (every value exactly representable): a surrogate evaluated as
+        # |x|^2 + |y|^2 - 2<x, y> cancels catastrophically here, the difference form does not
+        for d in (3, 6):
+            for _ in range(max(2, n)):
+                a = rng.integers(-2, 3, d).astype(np.float64); a[:2] += float(rng.choice([1000.0, 2048.0, 3000.0]))
+                ps = []
+                for delta in (0.25, 0.5, 0.75, 1.0, 1.5, 2.0):
+                    b = a.copy(); b[int(rng.integers(d))] += delta
+                    ps.append(("offset", b))
+                ps.append(("identical", a.copy()))
+                out.append(("offset", f32(a), [(k, f32(v)) for k, v in ps]))
     z = lambda d: f32(np.zeros(d))
     for d in (2, 5):
         out.append(("zero", z(d), [("zero", z(d)), ("random", f32(draw(rng, d, styles[0])))]))
@@ -371,9 +383,9 @@ def api_stage(res, rng, tier):
     from harness import api, oracles
     # (metric, data kind): every surrogate's own glue - the normalising dot with queries that are NOT unit length, and a CSR index
     # whose surrogate / correction pair comes from the sparse table
-    metrics = [("euclidean", "dense32"), ("cosine", "dense32"), ("dot", "dense32"), ("jaccard", "csr")] if tier == "quick" else \
+    metrics = [("euclidean", "dense32"), ("cosine", "dense32"), ("dot", "dense32"), ("jaccard", "csr"), ("l2", "csr")] if tier == "quick" else \
         [("euclidean", "dense32"), ("cosine", "dense32"), ("hellinger", "dense32"), ("jaccard", "dense32"), ("dot", "dense32"),
-         ("jaccard", "csr"), ("cosine", "csr"), ("hellinger", "csr"), ("euclidean", "csr"), ("true_angular", "dense32")]
+         ("jaccard", "csr"), ("cosine", "csr"), ("hellinger", "csr"), ("euclidean", "csr"), ("l2", "csr"), ("l2", "dense32"), ("true_angular", "dense32")]
     for metric, kind in metrics:
         n, k, dim = 120, 6, 5
         X, L = api.gen_dataset(rng, metric, kind, n, dim, zero_rows=(metric in ("cosine", "jaccard") and kind == "dense32"))
